@@ -13,11 +13,13 @@ from __future__ import annotations
 import hashlib
 import io
 import json
+import os
 import re
 
 from . import net as N
 from . import tlc
 
+JOBS = max(1, int(os.environ.get("VERIF_JOBS") or os.cpu_count() or 4))
 NONE, FALSE = -100, -200          # the spec's encodings of Python None / False
 PAYLOAD = b"payload"
 
@@ -315,13 +317,17 @@ def _expect_violated(rep, name, r, clause):
 
 def stage1(rep, pid):
     quick = rep.tier == "quick"
-    free = dict(maxhops=3, codes="{302, 303, 307}", alpha="small") if quick else dict(maxhops=6, codes=ALL_CODES, alpha="full")
+    # bounds of the free (environment picks every answer) exploration; thorough = deep chains over the small
+    # alphabet plus the full alphabet (all origin aliases, all Location forms) over chains of two answers
+    frees = [dict(maxhops=3, codes="{302, 303, 307}", alpha="small")] if quick else \
+            [dict(maxhops=6, codes=ALL_CODES, alpha="small"), dict(maxhops=2, codes=ALL_CODES, alpha="full")]
     # (1) the Model as the code is (recorded deviation D10 on): every clause of both properties, for every chain
-    r = tlc.run("MC_Redirect", mc_cfg(invs=INV_C05 + INV_C06 + ["SensitiveStrippedExceptD10"] + INV_MODEL, props=PROPS, **free),
-                workers="auto", heap="4g", timeout=7200)
-    _expect_held(rep, f"free as-is {free}", r)
+    for free in frees:
+        r = tlc.run("MC_Redirect", mc_cfg(invs=INV_C05 + INV_C06 + ["SensitiveStrippedExceptD10"] + INV_MODEL, props=PROPS, **free),
+                    workers="auto", heap="3g", timeout=7200)
+        _expect_held(rep, f"free as-is {free}", r)
     # (2) per-action coverage read back (vacuity gate) on a one-answer run over every configuration
-    r = tlc.run("MC_Redirect", mc_cfg(maxhops=1, codes="{303, 307}", invs=["ClausesKnown"]), workers=4, heap="2g", coverage=True,
+    r = tlc.run("MC_Redirect", mc_cfg(maxhops=1, codes="{303, 307}", invs=["ClausesKnown"]), workers=min(4, JOBS), heap="2g", coverage=True,
                 timeout=3600)
     rep.add_tlc("free as-is, one answer, with -coverage", r)
     cov = {a: r.coverage.get(a, (0, 0))[1] for a in ACTIONS}
@@ -335,9 +341,10 @@ def stage1(rep, pid):
         _expect_violated(rep, "deviation D1 (constructor policy ignored)", r, "RedirectWithinBudget")
     else:
         # (3) the design the property asks for (no deviation): SensitiveStripped itself holds, for the forwarding proxy too
-        r = tlc.run("MC_Redirect", mc_cfg(dev="{}", client="proxy", invs=INV_C06 + ["SensitiveStripped", "ClausesKnown"],
-                                          props=["StrippedStaysStripped"], **free), workers="auto", heap="4g", timeout=7200)
-        _expect_held(rep, "free design (no deviation), forwarding proxy", r)
+        for free in frees:
+            r = tlc.run("MC_Redirect", mc_cfg(dev="{}", client="proxy", invs=INV_C06 + ["SensitiveStripped", "ClausesKnown"],
+                                              props=["StrippedStaysStripped"], **free), workers="auto", heap="3g", timeout=7200)
+            _expect_held(rep, f"free design (no deviation), forwarding proxy {free}", r)
         # (4) with D10 on, TLC reproduces the finding at design level
         r = tlc.run("MC_Redirect", mc_cfg(maxhops=2, client="proxy", invs=["SensitiveStripped"]), workers=2, expect_fail=True,
                     timeout=3600)
@@ -471,7 +478,7 @@ def run_property(rep, pid):
     for s in range(nsimjobs):
         jobs.append((mc_cfg(mode="free", maxhops=6, family="sim", view=False, alpha="full", invs=["EmitInv"]), skip,
                      nsim // nsimjobs, rep.seed * 100 + s + 1))
-    with mp.Pool(16) as pool:
+    with mp.Pool(min(JOBS, len(jobs))) as pool:
         outs = pool.map(_emit_shard, jobs, chunksize=1)
     tags = {}
     for o in outs:
